@@ -66,6 +66,12 @@ def cases_for(ctx):
             cases.append(dict(c, poke=1))
         elif (c["kind"] == "iterref" or (c["kind"] == "coiter" and "ref" in c["mode"])) and rng.random() < 0.6:
             cases.append(dict(c, take=rng.randint(0, 2)))
+    # fibers WITHOUT a declared shape but with an explicit active range (beyond the last stored coordinate too): the active-range traversals follow the range
+    for c in list(cases):
+        if c.get("hasact") and c.get("emb", "fiber") == "fiber" and not c.get("fmt") and rng.random() < 0.4 and \
+                ((c["kind"] in ("iter", "iterref") and c["mode"] in ("active", "activeshape", "activeshaperef")) or (c["kind"] == "coiter" and c["mode"] in ("activeshape", "activeshaperef"))):
+            a0 = c["act"][0]
+            cases.append(dict(c, noshape=1, act=[a0, max(c["act"][1], a0) + rng.randint(0, 3)]))
     # the same traversals over fibers whose rank default is 2 (a stored 2 is the explicit default, a stored 0 is content)
     for c in list(cases):
         if rng.random() < (0.35 if ctx.quick else 0.6):
